@@ -66,7 +66,7 @@ def _(c):
     c.ensures("(result.error is None) == (left.error is None and right.error is None)", "exact-iff-both-exact")
     c.ensures("err_ok(result)", "error-non-negative")
     c.ensures("((result.error == left.error / absv(right.value)) if (left.error is not None and right.error is None) else True)", "exact-divisor-scales-by-reciprocal-absolute-value")
-    c.ensures("((result.error >= (left.value * right.error + right.value * left.error) / (right.value * right.value)) if (left.error is not None and right.error is not None and left.value > 0 and right.value > right.error) else True)", "first-order-lower-bound")
+    c.ensures("((result.error >= (left.value * right.error + right.value * left.error) / (right.value * right.value)) if (left.error is not None and right.error is not None and left.value > 0 and right.value > 0 and right.error < 2 * right.value and right.error != right.value) else True)", "first-order-lower-bound")
     c.fresh("result")
     c.no_raise()
     c.modifies()
